@@ -44,7 +44,7 @@ class In:
 
 
 class Encoded:
-    def __init__(self, real_fn, ins, tag="", closed=None):
+    def __init__(self, real_fn, ins, tag="", closed=None, uf_hook=None):
         self.real_fn = real_fn
         self.ins = ins
         if closed is None:
@@ -52,6 +52,7 @@ class Encoded:
             self.out_tree = jax.tree_util.tree_structure(out_shape)
         self.closed = closed
         self.interp = Interp(tag)
+        self.interp.uf_hook = uf_hook
         self.outs = self.interp.run(self.closed, *[i.sym for i in ins])
         self.vars = free_vars([i.sym for i in ins])
         self.ranges = {}
@@ -59,9 +60,9 @@ class Encoded:
             for nm in free_vars([i.sym]):
                 self.ranges[nm] = (i.lo, i.hi)
 
-    def clone_with(self, ins, tag=""):
+    def clone_with(self, ins, tag="", uf_hook=None):
         """same traced program, other symbolic inputs (same shapes)"""
-        return Encoded(self.real_fn, ins, tag=tag, closed=self.closed)
+        return Encoded(self.real_fn, ins, tag=tag, closed=self.closed, uf_hook=uf_hook)
 
     # ----- concrete side -----
     def concrete_inputs(self, values):
